@@ -343,6 +343,18 @@ def _indexed(rng, tok, size, src, tgt, nrm, wn, T):
     pt = list(range(n + extra_t))
     rng.shuffle(ps)
     rng.shuffle(pt)
+    almost_identity = rng.chance(0.3)
+    if almost_identity:
+        # what ICP hands over most of the time: equal sizes, the list in source order, the pairing the identity EXCEPT for a few
+        # neighbour swaps — a shortcut that recognises "the identity pairing" by looking at a few entries (seeded change c05d probes
+        # entries 0, N/2 and N-1 only, for N >= 32) takes the aligned path on a list that is not the identity
+        extra_s = extra_t = 0
+        ps = list(range(n))
+        pt = list(range(n))
+        for _ in range(rng.int(1, 4)):
+            k = rng.int(1, max(1, n - 3))
+            if k + 1 < n - 1 and k != n // 2 and k + 1 != n // 2:
+                pt[k], pt[k + 1] = pt[k + 1], pt[k]
     S2 = [None] * (n + extra_s)
     T2 = [None] * (n + extra_t)
     N2 = [None] * (n + extra_t)
@@ -353,7 +365,7 @@ def _indexed(rng, tok, size, src, tgt, nrm, wn, T):
         T2[pt[k]] = tgt[k] if k < n else wild()
         N2[pt[k]] = nrm[k] if k < n else wild()
     corr = [(ps[k], pt[k]) for k in range(n)]
-    if rng.chance(0.5):
+    if rng.chance(0.5) and not almost_identity:
         rng.shuffle(corr)
     return '%d %d %d %s %s %s %s' % (len(S2), len(T2), n, ' '.join(_pt(tok, p, size, 1.0) for p in S2),
                                      ' '.join(_pt(tok, p, size, 1.0) for p in T2), ' '.join(_pt(tok, p, size, wn) for p in N2),
